@@ -94,6 +94,7 @@ InvEulerPoincare == Euler(K) = AltSum(BettiDefSeq(K, D), 1)
 InvB0 == BettiDef(K, 0) = NumCC(K)
 
 (* same theorems with the polynomial operator only (larger bound)               *)
+InvB0Alg == BettiAlg(K, 0) = NumCC(K) /\ Euler(K) = AltSum(BettiAlgSeq(K, D), 1)
 InvContractHomotopyAlg ==
   \A a, b \in Verts(K) :
      (a # b /\ {a, b} \in K /\ LinkCond(K, a, b)) =>
